@@ -12,7 +12,7 @@ static int thorough;
 
 /* --------------------------------------------------------------- accounting */
 #define MAXOPF 40
-typedef struct { char name[24]; long n, err_allowed, na, bad; } opstat_t;
+typedef struct { char name[24]; long n, err_allowed, na, bad, stale; } opstat_t;
 static struct { opstat_t f[MAXOPF]; int nf; long tick; int stop; } G;
 typedef struct { volatile int active; bc_t c; } slot13_t;
 static slot13_t *g_slot;
@@ -36,7 +36,7 @@ static opstat_t *op_get(const char *name)
     return &G.f[MAXOPF - 1];
 }
 
-static const char *retname[] = { "ok", "wrong-value", "error-returned", "n/a", "representation", "unexpected-error" };
+static const char *retname[] = { "ok", "wrong-value", "error-returned", "n/a", "unclamped-or-negative-zero", "unexpected-error", "stale-high-digits", "unreduced-result" };
 
 static void chk(const bc_t *c)
 {
@@ -77,7 +77,11 @@ static void chk(const bc_t *c)
     {
         f->err_allowed++;
     }
-    if (r == RET_WRONG || r == RET_REPR || r == RET_ERR_UNEXPECTED)
+    if (r == RET_STALE)
+    {
+        f->stale++;
+    }
+    if (r == RET_WRONG || r == RET_REPR || r == RET_ERR_UNEXPECTED || r == RET_UNREDUCED)
     {
         mx_result_t res;
         f->bad++;
@@ -438,6 +442,15 @@ static void grp_case(void *ctx, mx_result_t *r)
             er.nontrivial = 0;
             mx_record(&er);
         }
+        if (f->stale)
+        {
+            /* value exact, but digits above 'used' were left non-zero in the output operand (hygiene, not a violation) */
+            mx_result_t er = fr;
+            snprintf(er.desc, sizeof(er.desc), "%.170s [op=%s stale]", gd, f->name);
+            snprintf(er.outcome, sizeof(er.outcome), "%s:exact-but-stale-high-digits", f->name);
+            er.transitions = (uint32_t) f->stale;
+            mx_record(&er);
+        }
         if (i < G.nf - 1)
         {
             mx_record(&fr);
@@ -662,7 +675,7 @@ int main(int argc, char **argv)
             fprintf(stderr, "replaying %s\n", replay);
             rc = run_case(&c, human, what);
             fprintf(stderr, "  case: %s\n  result: %s%s%s\n", human, retname[rc], what[0] ? " - " : "", what);
-            if (rc == RET_WRONG || rc == RET_REPR || rc == RET_ERR_UNEXPECTED)
+            if (rc == RET_WRONG || rc == RET_REPR || rc == RET_ERR_UNEXPECTED || rc == RET_UNREDUCED)
             {
                 r.violation = 1;
                 snprintf(r.key, sizeof(r.key), "%s|%s|%s", opname[c.op], g_cls, retname[rc]);
